@@ -621,6 +621,8 @@ BORROWED = [_borrowed("c16", n) for n in ("r1_only_invalid_params", "r2_poison_o
 # "answered with the handler's result": a result that fits the configured response limit - including one of exactly that
 # size - is not replaced by -32008 (the bounded writer's guard is the inclusive `size <= limit`) (= C08.R2)
 BORROWED += [_borrowed("c08", "r2_bounded_writer")]
+# every HTTP error reply is a response object (jsonrpc, id, error) (= C15.R10)
+BORROWED += [_borrowed("c15", "r10_http_errors_keep_the_envelope")]
 
 
 def r14_every_data_message_reaches_the_task(ctx):
